@@ -180,6 +180,24 @@ func C09(c *ev.Ctx) {
 			sigs = [][]byte{k.sig[:len(k.sig)-1], k.sig[1:], k.sig[:len(k.sig)/2]}
 		case "extended":
 			sigs = [][]byte{append(append([]byte{}, k.sig...), 0), append([]byte{0}, k.sig...)}
+		case "resizedHalves":
+			// wrongly sized although numerically the same (r, s): both halves zero-padded on the left / on the right,
+			// or only one of them; and the signature doubled
+			half := len(k.sig) / 2
+			sigs = nil
+			for _, n := range []int{1, 2, 6, half} {
+				z := make([]byte, n)
+				r, ss := k.sig[:half], k.sig[half:]
+				cat := func(parts ...[]byte) []byte {
+					var o []byte
+					for _, x := range parts {
+						o = append(o, x...)
+					}
+					return o
+				}
+				sigs = append(sigs, cat(z, r, z, ss), cat(r, z, ss, z), cat(z, r, ss), cat(r, z, ss), cat(z, z, r, ss))
+			}
+			sigs = append(sigs, append(append([]byte{}, k.sig...), k.sig...))
 		case "empty":
 			sigs = [][]byte{{}}
 		case "zeroes":
@@ -274,7 +292,7 @@ func C09(c *ev.Ctx) {
 	c.Cov.Evaluations = calls
 	c.Cov.DistinctNontrivial = nt
 	c.Cov.Exhaustive = true
-	c.Cov.Rule = "5 key types x 9 signature forms (genuine, ECDSA twin, flipped byte, truncated, extended, empty, all-zero, signature by another key of the same / another type) x header tamper (none, alg changed / any value-changing byte flip, member added, whitespace only) x payload tamper (none, byte changed, byte appended) x verification key (signer, other of same type, other type); positional classes are expanded over byte positions (quick: every 5th, thorough: all); each resulting compact JWS goes through the real VerifyJWS (tag-verif re-export) under panic capture; plus malformed compact strings (15 classes) and JWKs (12 classes) per key type. Non-trivial: every case not expected to be accepted."
+	c.Cov.Rule = "5 key types x 10 signature forms (genuine, ECDSA twin, flipped byte, truncated, extended, halves resized by zero padding, empty, all-zero, signature by another key of the same / another type) x header tamper (none, alg changed / any value-changing byte flip, member added, whitespace only) x payload tamper (none, byte changed, byte appended) x verification key (signer, other of same type, other type); positional classes are expanded over byte positions (quick: every 5th, thorough: all); each resulting compact JWS goes through the real VerifyJWS (tag-verif re-export) under panic capture; plus malformed compact strings (15 classes) and JWKs (12 classes) per key type. Non-trivial: every case not expected to be accepted."
 	c.Assume = append(c.Assume, "cryptographic primitives (crypto/ecdsa, ed25519, btcec) are trusted; the ECDSA twin (r, n-s) may be accepted or rejected")
 	c.Finish("model_checking")
 }
